@@ -245,7 +245,8 @@ def write_replay(prop, seed, n, payload):
     os.makedirs(d, exist_ok=True)
     path = os.path.join(d, '%s-%s-%s.json' % (prop, seed, n))
     with open(path, 'w') as f:
-        json.dump(payload, f, indent=1, sort_keys=True, default=repr)
+        # key order is kept: the order of operators / fields inside a document matters to mongomock
+        json.dump(payload, f, indent=1, default=repr)
     return path
 
 
